@@ -10,7 +10,7 @@ use std::process::{Child, ChildStdin, ChildStdout, Command, Stdio};
 use std::rc::Rc;
 
 #[derive(Clone, Copy, PartialEq, Eq, Debug)]
-pub enum Kind { Block, Spin, NullSp, Exiter }
+pub enum Kind { Block, Spin, NullSp, Exiter, Vforker }
 #[derive(Clone, Debug)]
 pub struct ThreadSpec { pub kind: Kind, pub sp_off: u32, pub pages: u32, pub name: Option<Vec<u8>>, pub at: Option<u64> }
 #[derive(Clone, Debug, Default)]
@@ -19,7 +19,7 @@ impl Scenario {
     pub fn text(&self) -> String {
         let mut s = String::new();
         for t in &self.threads {
-            let k = match t.kind { Kind::Block => "block", Kind::Spin => "spin", Kind::NullSp => "nullsp", Kind::Exiter => "exiter" };
+            let k = match t.kind { Kind::Block => "block", Kind::Spin => "spin", Kind::NullSp => "nullsp", Kind::Exiter => "exiter", Kind::Vforker => "vforker" };
             let name = match &t.name { None => "-".to_string(), Some(n) if n.is_empty() => "00".to_string(), Some(n) => n.iter().map(|b| format!("{b:02x}")).collect() };
             match t.at { Some(addr) => s.push_str(&format!("threadat {k} {addr:x} {} {name}\n", t.pages)), None => s.push_str(&format!("thread {k} {} {} {name}\n", t.sp_off, t.pages)) }
         }
@@ -56,9 +56,13 @@ impl Target {
         let mut tids = Vec::new();
         for i in 0..scen.threads.len() { tids.push(facts[&format!("t{i}.tid")].parse().unwrap()); }
         let shared = std::fs::File::open(&facts["shared"]).map_err(|e| format!("shared page: {e}"))?;
+        let mut stdin = stdin;
+        let main_exits = scen.lines.iter().any(|l| l.starts_with("mainexit"));
+        if main_exits { let _ = writeln!(stdin, "z"); let _ = stdin.flush(); }
         // wait until the main thread has settled in its blocking read of stdin (its registers and stack
         // are then stable between dumps)
         for _ in 0..400 {
+            if main_exits { let st = std::fs::read_to_string(format!("/proc/{pid}/stat")).unwrap_or_default(); if st.contains(") Z ") { break; } std::thread::sleep(std::time::Duration::from_micros(500)); continue; }
             let sc = std::fs::read_to_string(format!("/proc/{pid}/syscall")).unwrap_or_default();
             if sc.starts_with("0 0x0 ") { break; }
             std::thread::sleep(std::time::Duration::from_micros(500));
